@@ -11,6 +11,7 @@ ASSUMPTIONS = [
     'compositions are covered by applying every derivation to every origin of a 9-entry origin menu (a slice of a join of a sorted table is origin=join-of-sorted, derivation=slice)',
     'aggregate / window output names: key columns keep their stored name ("key" when unnamed), outputs are <documented sanitisation of the column name, "col" when nothing is left>_<fn>, '
     'repeats made unique by a numeric suffix; the documented sanitisation is the independent implementation of C17',
+    'masks in the keep-name obligations are fixed witnesses: mixed, selecting nothing, selecting everything (list, Vector[bool] and comparison-result forms)',
 ]
 
 NAMES = ['x', 'y', None, 'A b', 'sum', 'x', 'a_b', 'X', '', '1st', 'x_sum', 'key']
